@@ -176,7 +176,7 @@ class C08(Property):
             if kind == "Emulsion":
                 obj = Emulsion([T.build_droplet(d) for d in members[0]])
             elif kind == "EmulsionTimeCourse":
-                obj = EmulsionTimeCourse([Emulsion([T.build_droplet(d) for d in m]) for m in members], spec["times"]) if members else EmulsionTimeCourse()
+                obj = EmulsionTimeCourse(gen.frames_as_given([Emulsion([T.build_droplet(d) for d in m]) for m in members], spec["times"]), gen.times_as_given(spec["times"], members)) if members else EmulsionTimeCourse()
             elif kind == "DropletTrack":
                 obj = _track(members[0], spec["times"][0], spec.get("build", "append"))
             else:
